@@ -53,10 +53,10 @@ NoMemo == [k \in MemoKeys |-> <<>>]          \* <<>> = empty, <<state>> = filled
 NeutronXH1000 == (6 :> 1083 @@ 7 :> 1009 @@ 8 :> 983 @@ 5 :> 1180)
 IsOpaque(s) == "opq" \in DOMAIN s
 Opaque(choice, sig) == [choice |-> choice, opq |-> sig]
-(* atoms: per asymmetric-unit atom [z, moved, xz (element it is bonded to, 0 if none), len1000 (that bond length x 1000)] *)
+(* atoms: per asymmetric-unit atom [z, moved, xz (element it is bonded to, 0 if none, -1 if the structure does not say), len1000 (that bond length x 1000)] *)
 NormalizeClause(atoms) ==
   IF \E i \in DOMAIN atoms : atoms[i].z # 1 /\ atoms[i].moved THEN "HeavyAtomMoved" ELSE
-  IF \E i \in DOMAIN atoms : atoms[i].z = 1 /\ atoms[i].xz \notin DOMAIN NeutronXH1000 /\ atoms[i].moved THEN "UnlistedHydrogenMoved" ELSE
+  IF \E i \in DOMAIN atoms : atoms[i].z = 1 /\ atoms[i].xz # -1 /\ atoms[i].xz \notin DOMAIN NeutronXH1000 /\ atoms[i].moved THEN "UnlistedHydrogenMoved" ELSE
   IF \E i \in DOMAIN atoms : atoms[i].z = 1 /\ atoms[i].xz \in DOMAIN NeutronXH1000
                               /\ (atoms[i].len1000 - NeutronXH1000[atoms[i].xz] > 1 \/ NeutronXH1000[atoms[i].xz] - atoms[i].len1000 > 1)
      THEN "BondLength" ELSE ""
